@@ -60,7 +60,7 @@ def scan(text, headstr):
     return out
 
 
-def head_markup(deps, H, lib_prefix="lib", include_version=True):
+def head_markup(deps, H, lib_prefix="lib", include_version=True):  # noqa
     """What HTMLDocument puts in <head> after <meta charset>, for these dependencies (rendered by the library)."""
     doc = H.HTMLDocument(H.tags.html(H.tags.head(), *deps)).render(lib_prefix=lib_prefix, include_version=include_version)["html"]
     start = doc.index('<meta charset="utf-8"/>') + len('<meta charset="utf-8"/>')
@@ -122,7 +122,8 @@ class C13(Prop):
                     segs.append({"k": "ser", "id": 0, "dep": rnd.randint(1, 3), "var": rnd.choice([0, 0, 2])})
                 else:
                     segs.append({"k": "ph", "id": 0, "dep": 0, "var": 0})
-            gens.append({"kind": "doc", "segs": segs, "seed": n})
+            gens.append({"kind": "doc", "segs": segs, "seed": n, "prefix": rnd.choice(["lib", "lib", None, "a/b"]),
+                         "inclver": rnd.random() < 0.5})
         for n in range(100 if tier == "quick" else 2000):
             gens.append({"kind": "mode", "seed": n})
         return gens
@@ -176,7 +177,12 @@ class C13(Prop):
                     parts.append(PH)
             text = "".join(parts)
             tdoc = H.HTMLTextDocument(text, deps_replace_pattern=PH)
-            res = tdoc.render(lib_prefix="lib", include_version=True)
+            prefix, inclver = g.get("prefix", "lib"), g.get("inclver", True)
+            try:
+                res = tdoc.render(lib_prefix=prefix, include_version=inclver)
+            except Exception:  # noqa: whatever the dependencies contain, rendering must not fail
+                return {"k": "doc", "segs": g["segs"], "deps": [-1], "rest": [], "rendered": [], "headEmpty": False,
+                        "untouched": False, "insEv": [], "docEv": [], "gen": g}
             got = res["dependencies"]
             ids = []
             for d in got[:11]:
@@ -193,7 +199,7 @@ class C13(Prop):
             if overlong:
                 return {"k": "doc", "segs": g["segs"], "deps": ids[:10] + [-1], "rest": [], "rendered": [], "headEmpty": False,
                         "untouched": False, "insEv": [], "docEv": [], "gen": g}
-            headstr = head_markup(got, H) if got and not overlong else ""
+            headstr = head_markup(got, H, prefix, inclver) if got and not overlong else ""
             pieces = rest_expected.split(PH)
             html = res["html"]
             ins, marks = "", None
